@@ -6,6 +6,7 @@ import os
 from . import common as C
 from . import conc
 from . import pipe
+from . import resultalg
 from . import x_allocsites
 from . import x_dispatch
 
@@ -203,6 +204,9 @@ def run(res, prop, tier):
     prop_fail, corr_fail = pipe.check(res, prop, tier, nq, nt, twins=(prop == 'C12'), exhaustive_steps=2 if prop == 'C02' else 1)
     if prop == 'C20':
         prop_fail = list(prop_fail) + comb_check(res, tier)
+    if prop == 'C02':
+        rf, rc = resultalg.check(res, tier)   # util/result.hpp: the Result algebra differential
+        prop_fail, corr_fail = list(prop_fail) + rf, list(corr_fail) + rc
     if prop == 'C05':
         ff, fc = pipe.free_check(res, tier)   # jobs that are not pipeline steps: yaclib::Submit(e, f)
         prop_fail, corr_fail = list(prop_fail) + ff, list(corr_fail) + fc
@@ -226,4 +230,7 @@ def replay(prop, path):
     if m:  # a schedule of another harness (harness_stage)
         src = m[0][len('# harness: '):].strip()
         return conc.replay(src[:-4].upper(), path, harness_src=src)
+    first = [l.strip() for l in open(path) if l.strip() and not l.startswith('#')]
+    if first and first[0].startswith('ty '):
+        return resultalg.replay(path)
     return pipe.replay(prop, path)
